@@ -336,6 +336,20 @@ def worker(payload):
     ks = sorted(seasons)
     lines += ["season %d" % k for k in ks]
     rl, exp_run = runc.sim_lines(o)
+    if rl is not None and exp_run is None and o.get("error") and "reset_initial_conditions" in str(o["error"].get("origin")):
+        # the season reset raises (outside the processes of a day): the run stops there; everything written before is compared
+        exp_run = ["X", o["final"][1], str(len(o["days"]))]
+        sums = []
+        for d in o["days"]:
+            r = d["exp_rows"]
+            if r[-1] == "N":
+                exp_run += ["|"] + r[:-1]
+            else:
+                exp_run += ["|"] + r[:-8]; sums.append(r[-7:])
+        exp_run += ["#", str(len(sums))]
+        for s_ in sums:
+            exp_run += s_
+        res["reset_raises"] = 1
     do_run = rl is not None and exp_run is not None and exp_run[0] != "CLOCK-PARAMETERS-CHANGED-WHILE-STEPPING"
     if do_run:
         lines.append("run_config")
@@ -371,6 +385,9 @@ def worker(payload):
                                            "clock_parameters_changed" if exp_run else "nothing_simulated")
     else:
         e = [canon(x) for x in exp_run]; g = [canon(x) for x in outs[-1]]
+        if e[0] == "X" and g[0] == "X" and len(g) == 2:
+            e = e[:2]; res["reset_raises_after_another_stop"] = 1
+        if e[0] == "X": res["reset_raises_compared"] = 1
         res["days"] = len(o["days"])
         res["stopped_runs"] = int(e[0] == "P")
         if e == g:
@@ -389,17 +406,45 @@ def worker(payload):
     return res
 
 
-def configs(n, name="initialise", **force):
-    return dayc.matrix_configs(n, name, **force)
+def simplify(cfg, stage):
+    """strip from a drawn configuration the features above `stage` (used to obtain enough configurations of the lower stages:
+    the natural share of stage-1 configurations in the matrix of sim.gen_config is about 2 %)"""
+    from aquacrop.entities.crops.crop_params import crop_params
+    cfg = json.loads(json.dumps(cfg, default=float))
+    if stage < 4:
+        nm = cfg["crop"]["name"]
+        if int(crop_params[nm].get("CalendarType", 2)) == 2:
+            base = nm.replace("GDD", "").replace("_1dec", "").replace("_UK", "").replace("Long", "").replace("Hyd", "").replace("Local", "").replace("Champion", "")
+            cfg["crop"]["name"] = base if base in crop_params and int(crop_params[base].get("CalendarType", 2)) == 1 else "Maize"
+            cfg["crop"]["kwargs"] = {k: v for k, v in (cfg["crop"].get("kwargs") or {}).items() if k != "GDDmethod"}
+    if stage < 3:
+        cfg["gw"] = None; cfg["co2"] = None
+    if stage < 2:
+        s = cfg["soil"]
+        if s["type"] == "custom":
+            cfg["soil"] = {"type": "Loam", "kwargs": {k: v for k, v in s.get("kwargs", {}).items() if k not in ("cn", "rew")}}
+        cfg["iwc"] = {"wc_type": "Prop", "method": "Layer", "depth_layer": [1, 2] if cfg["soil"]["type"] in ("Paddy", "ac_TunisLocal") else [1],
+                      "value": ["FC", "FC"] if cfg["soil"]["type"] in ("Paddy", "ac_TunisLocal") else ["FC"]} if cfg.get("iwc") and not (cfg["iwc"]["wc_type"] == "Prop" and cfg["iwc"]["method"] == "Layer") else cfg.get("iwc")
+        cfg["field"] = None; cfg["fallow_field"] = None
+        if (cfg.get("irr") or {}).get("irrigation_method", 0) in (3, 4):
+            cfg["irr"] = {"irrigation_method": 0}
+    return cfg
 
 
-def run_l3(nsims=None, name="initialise", timeout=900, stage=None, **force):
+def configs(n, name="initialise", simplify_to=None, **force):
+    cfgs = dayc.matrix_configs(n, name, **force)
+    if simplify_to is not None:
+        cfgs = [simplify(c, simplify_to) for c in cfgs]
+    return cfgs
+
+
+def run_l3(nsims=None, name="initialise", timeout=900, stage=None, simplify_to=None, **force):
     """the correspondence suite (same result keys as l1.run_suite)"""
     t0 = time.time()
     if nsims is None:
         nsims = 200 if TIER == "quick" else 900
     stage = STAGE if stage is None else stage
-    cfgs = configs(nsims, name, **force)
+    cfgs = configs(nsims, name, simplify_to=simplify_to, **force)
     res = sim.pmap(worker, [{"cfg": c, "index": i, "stage": stage} for i, c in enumerate(cfgs)], timeout=timeout)
     tot = collections.Counter(); feats = collections.Counter(); skipped = collections.Counter(); rej = collections.Counter()
     herr = []; bad = []; agree_feats = collections.Counter(); stage_tab = collections.defaultdict(collections.Counter)
@@ -503,5 +548,6 @@ if __name__ == "__main__":
     import sys
     nn = int(sys.argv[1]) if len(sys.argv) > 1 else 16
     stg = int(sys.argv[2]) if len(sys.argv) > 2 else STAGE
-    r = run_l3(nn, stage=stg)
+    simp = int(sys.argv[3]) if len(sys.argv) > 3 else None
+    r = run_l3(nn, stage=stg, simplify_to=simp)
     print(json.dumps({k: v for k, v in r.items() if k not in ("samples",)}, indent=1, default=str)[:12000])
